@@ -11,6 +11,7 @@ import (
 
 	"github.com/smart-core-os/sc-api/go/traits"
 	"github.com/smart-core-os/sc-api/go/types"
+	"github.com/smart-core-os/sc-golang/pkg/masks"
 	"github.com/smart-core-os/sc-golang/pkg/resource"
 )
 
@@ -81,7 +82,8 @@ func (m *ModelServer) ListHails(_ context.Context, request *traits.ListHailsRequ
 	lastKey := pageToken.GetLastResourceName() // the key() of the last item we sent
 	pageSize := capPageSize(int(request.GetPageSize()))
 
-	sortedItems := m.model.ListHails(resource.WithReadMask(request.ReadMask))
+	// the read mask is applied to the page below: paging needs the key of every item
+	sortedItems := m.model.ListHails()
 	nextIndex := 0
 	if lastKey != "" {
 		nextIndex = sort.Search(len(sortedItems), func(i int) bool {
@@ -108,6 +110,10 @@ func (m *ModelServer) ListHails(_ context.Context, request *traits.ListHailsRequ
 		return nil, err
 	}
 	result.Hails = sortedItems[nextIndex:upperBound]
+	filter := masks.NewResponseFilter(masks.WithFieldMask(request.ReadMask))
+	for i, item := range result.Hails {
+		result.Hails[i] = filter.FilterClone(item).(*traits.Hail)
+	}
 	return result, nil
 }
 
